@@ -270,7 +270,8 @@ Definition encode_body (fuel : nat) (sg : option str) (vals : pyval) (fds : fdst
    the signature fits a SIGNATURE *)
 Definition header_ok (q : creq) : bool :=
   validate_path (q_path q) &&
-  match q_sig q with Some sg => (length sg <=? 255)%nat | None => true end.
+  match q_sig q with Some sg => is_ascii sg && (length sg <=? 255)%nat | None => true end.
+  (* marshal_signature: codecs.encode(var, 'ascii'), one length byte *)
 
 Definition call_flags (q : creq) : N :=
   (if q_expect q then 0 else 1) + (if q_auto q then 0 else 2).
